@@ -28,7 +28,7 @@ FORMULAS = ["B:A + a", "a + A:B:a", "b:a + A", "A + B + A:B", "G:B:A", "0 + A + 
             "a:b + b:a:c", "A + G:A", "2:a + b", "c + C(G, contr.helmert) + B", "B:a + A:b + a:b", "a + b + c + a:b:c", "G + G:a", "center(a):A + B",
             "a + np.abs(center(b)) + A:np.abs(center(b))", "np.exp(scale(a)) + b + B", "I(center(a) * 2):B + c", "poly(center(b), 2) + a",
             # factor expressions that themselves contain ':' (printed back-quoted inside a term)
-            "a + I({0: a}[0]):A", "I(b[0:]) + a + B:I(b[0:])", "a + I({0: a}[0]):I(b[0:]):B", "I(b[0:]):a + c"]
+            "`a:b` + b:a", "b:a + `a:b`:A + b", "`a:b`:c + c:b:a", "a + I({0: a}[0]):A", "I(b[0:]) + a + B:I(b[0:])", "a + I({0: a}[0]):I(b[0:]):B", "I(b[0:]):a + c"]
 
 
 def run(ctx: Ctx):
@@ -44,6 +44,7 @@ def run(ctx: Ctx):
         nlev = {c: rng.randint(1, len(lv)) for c, lv in M.CAT.items()}
         df = pd.DataFrame({**{c: [float(rng.choice(M.VALS)) + 0.0625 * k for k in range(n)] for c in M.NUM},
                            **{c: pd.Series([lv[k % nlev[c]] for k in range(n)], dtype=object) for c, lv in M.CAT.items()}})
+        df["a:b"] = [float((k * 5) % 7) - 3.0 for k in range(n)]          # a column whose NAME spells an interaction
         if rng.random() < 0.5:
             f = rng.choice(FORMULAS)
         else:
@@ -58,6 +59,12 @@ def run(ctx: Ctx):
             continue
         ms = mm.model_spec
         ctx.oracle_runs += 1
+        if f in FORMULAS:
+            # the fixed formulas are plain sums of pairwise different terms: the spec has one term per summand (plus the intercept)
+            pieces = f.split(" + ")
+            want_n = len(pieces) - 1 if pieces[0] == "0" else len(pieces) + 1
+            if len(ms.terms) != want_n or len(ms.structure) != want_n:
+                ctx.fail(f"{f!r} has {want_n} different terms; the spec lists {[repr(t) for t in ms.terms]}", rp)
         arr = np.asarray(mm.toarray() if out == "sparse" else mm, dtype=float)
         names = list(ms.column_names)
         # ---- direct oracle
@@ -102,14 +109,15 @@ def run(ctx: Ctx):
                 s_ = got["term_slices"]
                 slices.append(f"({clist(cstr(x) for x in o)}, {copt(None if isinstance(s_, str) else (s_.start, s_.stop), lambda v: f'({v[0]}%nat, {v[1]}%nat)')})")
             for c in row.columns:
-                if ms.get_slice(c) != slice(names.index(c), names.index(c) + 1) and names.count(c) == 1 and c not in [repr(x) for x in ms.terms]:
+                if ms.get_slice(c) != slice(names.index(c), names.index(c) + 1) and names.count(c) == 1 and not any(x == c for x in ms.terms):   # (a label that also reads as a term names the term)
                     ctx.fail(f"get_slice({c!r}) does not select column {names.index(c)}", rp)
         cols = [f"({cstr(c)}, {copt(ms.column_indices.get(c), lambda v: str(v) + '%nat')})" for c in names + ["nope"]]
         vlit = []
         # independently of term_variables: a data column is a variable of exactly the terms whose factor expressions mention it
         import re as _re
         for col in df.columns:
-            uses = [t for t in ms.terms if any(_re.search(r"(?<![\w.])" + _re.escape(col) + r"(?![\w(])", fc.expr) for fc in t.factors)]
+            uses = [t for t in ms.terms if any((fc.expr == col) if fc.eval_method.value == "lookup" else
+                                               (fc.eval_method.value == "python" and _re.search(r"(?<![\w.])" + _re.escape(col) + r"(?![\w(])", fc.expr)) for fc in t.factors)]
             want_ix = sorted({k for t in uses for k in ms.term_indices[t]})
             got_ix = list(ms.variable_indices.get(col, []))
             if got_ix != want_ix:
